@@ -2,8 +2,19 @@
     wf_* (Proofs/CodecRT.v) only state what every Go value satisfies: lengths/counts < 2^63 (Go int),
     repo ids < 2^32 (uint32 keys), IndexTimeUnix within int64. Lists stand for Go maps in iteration order
     (any order, duplicates allowed: the statements are list equalities, hence hold for the map views
-    canon_map / canon_set as well). *)
-From ZV Require Import Lib.Base Model.Codec Model.CodecOld Proofs.CodecCost Proofs.CodecRT Proofs.CodecOld.
+    canon_map / canon_set as well).
+
+    What ties which model to which code:
+    - Model/Codec.v (all theorems except the two *_refuted ones) is the model of the CURRENT /repo; it is tied to it
+      on every run by the correspondence (real MarshalBinary/UnmarshalBinary vs. the model under vm_compute).
+    - Model/CodecOld.v (the two *_refuted theorems) is the model of stringSetDecode BEFORE fix 86d5ebb. That code no
+      longer exists in /repo, so no run can compare the old model with it: the old model is tied to the old code ONLY by
+      the pre-fix re-derivation recorded in props/C26/rederived/pre-fix.json (the check, run on the tree before the fix,
+      reported hang / `slice bounds out of range [:-1]` / out-of-memory on exactly the input classes the *_refuted
+      theorems exhibit). The *_refuted theorems therefore document the repaired defect; they are not claims about the
+      current tree and nothing else in this file depends on them. *)
+From ZV Require Import Lib.Base Model.Codec Model.CodecOld Proofs.CodecCost Proofs.CodecRT Proofs.CodecStable Proofs.CodecOld.
+From Coq Require Import Permutation.
 Open Scope N_scope.
 
 (** encoding/binary: Uvarint reads back what PutUvarint wrote, for every uint64, in front of any suffix *)
@@ -75,6 +86,32 @@ Proof.
 Qed.
 Print Assumptions C26_decode_bounded.
 
+(** every ACCEPTED input yields a value the codec can carry: whatever byte string (shorter than 2^63, as every Go
+    slice is) a decoder accepts — canonical or not, version 1 or 2, with duplicate keys, with trailing bytes or
+    without — the value it returns lies in the domain of the round-trip theorems (counts, string lengths and the total
+    number of branches are bounded by the input length; ids are uint32, IndexTimeUnix is int64), so encoding it and
+    decoding again gives the same value. The Go value is the set / map view (canon_set / canon_map: duplicates
+    collapsed, later insertion wins) of the list the decoder inserted, and the encoder writes it in an arbitrary
+    iteration order l': the statement holds for every such l' (and for the insertion list itself, see
+    Proofs/CodecStable.v dec_set_stable / dec_repos_stable). For BranchesRepos (a slice, no map) the external pair has
+    to satisfy, on what FromBuffer returned, that WriteTo writes a blob (< 2^63 bytes) which FromBuffer reads back as
+    the same bitmap. *)
+Theorem C26_accepted_values_roundtrip : forall b : bytes, nlen b < 2 ^ 63 ->
+  (forall l l', dec_set b = Ok l -> Permutation l' (canon_set l) -> dec_set (enc_set l') = Ok l') /\
+  (forall l l', dec_repos b = Ok (Some l) -> Permutation l' (canon_map l) ->
+     dec_repos (enc_repos (Some l')) = Ok (Some l')) /\
+  (dec_repos b = Ok None -> dec_repos (enc_repos None) = Ok None) /\
+  (forall (T : Type) (ser : T -> bytes) (bm : bytes -> outcome T),
+     (forall blob x, bm blob = Ok x -> nlen (ser x) < 2 ^ 63 /\ bm (ser x) = Ok x) ->
+     forall l, dec_br bm b = Ok l -> dec_br bm (enc_br (map (fun p => (fst p, ser (snd p))) l)) = Ok l).
+Proof.
+  intros b Hb. split; [intros l l' H P; exact (dec_set_stable_set b l l' Hb H P)|].
+  split; [intros l l' H P; exact (dec_repos_stable_map b l l' Hb H P)|].
+  split; [intros _; exact dec_repos_enc_nil|].
+  intros T ser bm Hs l. exact (dec_br_stable ser bm Hs b l Hb).
+Qed.
+Print Assumptions C26_accepted_values_roundtrip.
+
 (** ---- the defect that was repaired (fix 86d5ebb), on the faithful model of the OLD stringSetDecode
     (Model/CodecOld.v): no linear bound exists — for every constant c below 2^59 there is an input of at most
     11 bytes on which the old decoder takes more than c*(|b|+1) steps and requests more than c*(|b|+1) map slots;
@@ -130,3 +167,13 @@ Example C26_ex_old_small : osteps (old_dec_set [1;232;7]) = 1002 /\ oerr (old_de
 Proof. vm_compute. split; reflexivity. Qed.
 Example C26_ex_v1 : dec_repos (enc_repos_v1 [(7, (true, 99%Z, [([97], [98])]))]) = Ok (Some [(7, (true, 0%Z, [([97], [98])]))]).
 Proof. vm_compute. reflexivity. Qed.
+(** accepted but not canonical: an overlong count (81 00 = 1) and a trailing byte; a version-1 ReposMap whose two
+    entries have the same id 7 (the later one wins in the Go map) — the decoded values round-trip although the inputs
+    are not what the encoders write *)
+Example C26_ex_accepted :
+  dec_set [1;129;0;1;97;7] = Ok [[97]] /\ enc_set (canon_set [[97]]) = [1;1;1;97] /\
+  dec_set (enc_set (canon_set [[97]])) = Ok [[97]] /\
+  dec_repos [1;2;1;7;1;1;1;97;1;98;7;0;0;9] = Ok (Some [(7, (true, 0%Z, [([97], [98])])); (7, (false, 0%Z, []))]) /\
+  canon_map [(7, (true, 0%Z, [([97], [98])])); (7, (false, 0%Z, []))] = [(7, (false, 0%Z, []))] /\
+  dec_repos (enc_repos (Some [(7, (false, 0%Z, []))])) = Ok (Some [(7, (false, 0%Z, []))]).
+Proof. vm_compute. repeat split; reflexivity. Qed.
